@@ -4,6 +4,7 @@ Recognised forms, in a function f:
   * `it.for_each(closure)` / `it.for_each(path::to::fn)`                       (sink "for_each")
   * `for x in it { .. }`  (MIR: loop around `Iterator::next(it)`, body on the Some edge)  (sink "for")
   * `it.map(closure).min()` / `.max()` / `.sum()` / `.all()` / `.any()`           (sink = that consumer)
+  * `let mut i = a; while i < b { .. ; i += 1 }`  (a counter stepped by one at the back edge)   (sink "while", source range a..b)
 where `it` is built from
   * `coll.iter()` / `coll.iter_mut()` / `coll.into_iter()`  -> every element of coll          source ("all", coll)
   * `a..b`                                                  -> every index a <= i < b        source ("range", a, b)
@@ -164,4 +165,29 @@ def elem_loops(F, f, stop=None, depth=2):
         # an iteration that only reaches the exit (None edge) is not a body
         bodies = [p for p in bodies if len(p.blocks) > 1] or bodies
         out.append(ElemLoop(f, b, "for", leaves, item, bodies, extra={"next": nres}))
+    # counter loops: the guard `i < bound` of a cycle whose `i` is `phi(init, i + 1)` and whose bound does not change
+    from core import bool_branches
+    for gb, expr, tt, ft in bool_branches(f):
+        if not (expr[0] == "binop" and expr[1] == "Lt" and expr[2][0] == "phi" and len(expr[2][1]) == 2):
+            continue
+        if gb not in f.reach_after(gb) or gb not in f.reach([tt]) or gb in f.reach([ft], avoid_blocks=[gb]) and ft in f.reach([tt], avoid_blocks=[gb]):
+            continue
+        members = list(expr[2][1])
+        step = [m for m in members if m[0] == "binop" and m[1] == "Add" and m[2] == ("const", 1, m[2][2] if len(m[2]) > 2 else None) and m[3][0] == "var"]
+        init = [m for m in members if m not in step]
+        bound = expr[3]
+        if len(step) != 1 or len(init) != 1 or mentions(init[0], lambda s_: s_[0] in ("var", "phi")) or mentions(bound, lambda s_: s_[0] in ("var", "phi")):
+            continue
+        leaves, item = [("range", init[0], bound)], ELEM(0)
+        tgt = strip_site(expr[2])
+        ps = eng.run(f, depth, (f.name,), start=tt, ends={gb})
+        bodies = []
+        for p in ps or []:
+            for e in p.events:
+                e.args = tuple(_rewrite(a, tgt, item) for a in e.args)
+                e.res = _rewrite(e.res, tgt, item)
+            st2 = [(_rewrite(tg, tgt, item), _rewrite(v, tgt, item), w) for tg, v, w in p.stores]
+            at2 = [(a[0], _rewrite(a[1], tgt, item), a[2], a[3], a[4]) for a in p.atoms]
+            bodies.append(SPath(f, p.blocks, at2, list(p.events), st2, _rewrite(p.ret, tgt, item), p.trace, {l_: _rewrite(v_, tgt, item) for l_, v_ in p.env.items()}))
+        out.append(ElemLoop(f, gb, "while", leaves, item, bodies, extra={"counter": step[0][3]}))
     return out
